@@ -443,6 +443,34 @@ Proof.
   apply vput_full; [rewrite map_length; exact L|exact H3].
 Qed.
 
+(* the byte broadcast MOVQ CX, X2; PUNPCKLBW; PUNPCKLBW; PSHUFL $0 *)
+Definition bcast16q (x : Z) (old : list Z) : list Z :=
+  let a := vput 16 (le_bytes4 (x mod two32) ++ le_bytes4 (x / two32) ++ repeat 0 8) old in
+  let b := vput 16 (interleave (firstn 8 a) (firstn 8 a)) a in
+  let c := vput 16 (interleave (firstn 8 b) (firstn 8 b)) b in
+  vput 16 (firstn 4 c ++ firstn 4 c ++ firstn 4 c ++ firstn 4 c) c.
+
+Lemma bcast16q_low x old : vlow 16 (bcast16q x old) = repeat ((x mod two32) mod 256) 16.
+Proof. reflexivity. Qed.
+
+Lemma vput_length_le w lo old n : (w <= n)%nat -> (length old <= n)%nat -> (length (vput w lo old) <= n)%nat.
+Proof. intros H1 H2. unfold vput. rewrite app_length, firstn_length, skipn_length. lia. Qed.
+
+Lemma bcast16_length x old : (length old <= 32)%nat -> (length (bcast16 x old) <= 32)%nat.
+Proof. intros H. unfold bcast16. cbv zeta. repeat (apply vput_length_le; [lia|]). exact H. Qed.
+
+Lemma bcast16q_length x old : (length old <= 32)%nat -> (length (bcast16q x old) <= 32)%nat.
+Proof. intros H. unfold bcast16q. cbv zeta. repeat (apply vput_length_le; [lia|]). exact H. Qed.
+
+Lemma hd_vlow16 v x : vlow 16 v = repeat x 16 -> hd 0 v = x.
+Proof. unfold vlow. destruct v as [|y v]; cbn [firstn repeat hd]; intros H; [discriminate|]. congruence. Qed.
+
+(* the low byte of an OR *)
+Lemma lor_low8 a b : Z.lor a b mod 256 = Z.lor (a mod 256) (b mod 256).
+Proof.
+  change 256 with (2 ^ 8). rewrite <- !Z.land_ones by lia. apply Z.land_lor_distr_l.
+Qed.
+
 (* SHLL len; SHRL $16 on the mask of [16-len stray lanes ++ the len lanes of t] leaves the mask of t *)
 Lemma shift_mask_gen (J t : list Z) : (1 <= length t <= 15)%nat -> length J = (16 - length t)%nat ->
   ((movmsk (J ++ t) mod two32 * 2 ^ (Z.of_nat (length t) mod two32 mod 32) mod two32) mod two32 / 2 ^ (16 mod two64 mod 32)) mod two32 = movmsk t.
